@@ -53,6 +53,8 @@ def coverage(r: dict, recs: list, traces: list, rule: str, extra: dict | None = 
         "samples": [sample(x) for x in (nt[:3] + recs[:1])] or [sample(x) for x in recs[:2]],
         "kernels": r["kernels"], "machine_behaviours": len(recs), "native_traces": len(traces),
         "depth": r["depth"], "exhaustive": False, "pipeline_wall_s": r["wall"],
+        "kernels_with_all_input_patterns": r.get("exhaustive_input_kernels", 0),
+        "behaviours_from_all_input_patterns": r.get("exhaustive_input_behaviours", 0),
     }
     if extra:
         cov.update(extra)
